@@ -76,7 +76,10 @@ class _Canon(ast.NodeTransformer):
             elif isinstance(e, ast.UnaryOp) and isinstance(e.op, ast.Not):
                 first(e.operand, lambda v: setattr(e, "operand", v))
             elif isinstance(e, ast.Compare):
-                first(e.left, lambda v: setattr(e, "left", v))
+                if isinstance(e.left, ast.Constant) and len(e.comparators) == 1:
+                    first(e.comparators[0], lambda v: e.comparators.__setitem__(0, v))      # "k" in (h := request.headers)
+                else:
+                    first(e.left, lambda v: setattr(e, "left", v))
             elif isinstance(e, ast.BoolOp):
                 first(e.values[0], lambda v: e.values.__setitem__(0, v))
         first(node.test, lambda v: setattr(node, "test", v))
@@ -124,6 +127,30 @@ class _Canon(ast.NodeTransformer):
                     return ast.copy_location(c, node)
         return node
 
+    def visit_FunctionDef(self, node):
+        self._fdepth = getattr(self, "_fdepth", 0) + 1
+        try:
+            self.generic_visit(node)
+        finally:
+            self._fdepth -= 1
+        return node
+    visit_AsyncFunctionDef = visit_FunctionDef
+
+    def visit_ClassDef(self, node):
+        saved, self._fdepth = getattr(self, "_fdepth", 0), 0       # fields of a record class keep their annotations
+        try:
+            self.generic_visit(node)
+        finally:
+            self._fdepth = saved
+        return node
+
+    def visit_AnnAssign(self, node: ast.AnnAssign):
+        # x: T = v  is  x = v  for every rule (annotations are not evaluated for their effect)
+        self.generic_visit(node)
+        if getattr(self, "_fdepth", 0) > 0 and node.value is not None and isinstance(node.target, (ast.Name, ast.Attribute, ast.Subscript)):
+            return self.visit_Assign(ast.copy_location(ast.Assign(targets=[node.target], value=node.value, lineno=node.lineno), node))
+        return node
+
     def _hoist_walrus(self, node):
         # T += (v := E) / x = (v := E):  v = E; T += v   (E without calls: evaluating it first changes nothing)
         val = node.value
@@ -139,6 +166,26 @@ class _Canon(ast.NodeTransformer):
         if pre is not None:
             rest = self.visit_Assign(node)
             return [pre] + (rest if isinstance(rest, list) else [rest])
+        # head, *rest = E:  head = E[0]; rest = E[1:]      x, = E:  x = E[0]      (E a sequence; a wrong length is not modelled)
+        if len(node.targets) == 1 and isinstance(node.targets[0], (ast.Tuple, ast.List)) and not isinstance(node.value, (ast.Tuple, ast.List)):
+            elts = node.targets[0].elts
+            star = [i for i, e in enumerate(elts) if isinstance(e, ast.Starred)]
+            if (len(elts) == 1 and not star) or (star == [len(elts) - 1] and len(elts) >= 2 and all(isinstance(e, ast.Name) for e in elts[:-1])
+                                                  and isinstance(elts[-1].value, ast.Name)):
+                out = []
+                base = node.value
+                if not isinstance(base, ast.Name):
+                    tmp = "_unpacked_%d" % getattr(node, "lineno", 0)
+                    out.append(ast.copy_location(ast.Assign(targets=[ast.Name(tmp, ast.Store())], value=base, lineno=node.lineno), node))
+                    base = ast.Name(tmp, ast.Load())
+                for i, e in enumerate(elts):
+                    if isinstance(e, ast.Starred):
+                        v = ast.Subscript(value=copy.deepcopy(base), slice=ast.Slice(lower=ast.Constant(i), upper=None, step=None), ctx=ast.Load())
+                        out.append(ast.copy_location(ast.Assign(targets=[e.value], value=v, lineno=node.lineno), node))
+                    else:
+                        v = ast.Subscript(value=copy.deepcopy(base), slice=ast.Constant(i), ctx=ast.Load())
+                        out.append(ast.copy_location(ast.Assign(targets=[e], value=v, lineno=node.lineno), node))
+                return [ast.fix_missing_locations(x) for x in out]
         # t1[k] = t2[k] = v  with v a plain name or constant: one store each
         if len(node.targets) >= 2 and isinstance(node.value, (ast.Name, ast.Constant)) \
                 and all(isinstance(t, (ast.Subscript, ast.Attribute)) and not any(isinstance(x, ast.Call) for x in ast.walk(t)) for t in node.targets):
@@ -685,10 +732,22 @@ class _Unroll(ast.NodeTransformer):
             if isinstance(n, ast.Assign) and len(n.targets) == 1 and isinstance(n.targets[0], ast.Name) and stores.get(n.targets[0].id) == 1 \
                     and isinstance(n.value, (ast.Tuple, ast.List)) and n.value.elts and all(isinstance(r, (ast.Tuple, ast.List)) for r in n.value.elts):
                 tables[n.targets[0].id] = n.value
+        # ... or to a tuple of constants (units = ("weeks", "days", ...)): iterating the name is iterating the literal
+        seqs = {n.targets[0].id: n.value for n in ast.walk(node)
+                if isinstance(n, ast.Assign) and len(n.targets) == 1 and isinstance(n.targets[0], ast.Name) and stores.get(n.targets[0].id) == 1
+                and isinstance(n.value, ast.Tuple) and _const_seq(n.value) is not None}
         self.local_tables.append(tables)
+        self.local_seqs = getattr(self, "local_seqs", [])
+        self.local_seqs.append(seqs)
         self.generic_visit(node)
         self.local_tables.pop()
+        self.local_seqs.pop()
         return node
+
+    def _seq(self, it: ast.AST) -> Optional[List[ast.AST]]:
+        if isinstance(it, ast.Name) and getattr(self, "local_seqs", None) and it.id in self.local_seqs[-1]:
+            it = self.local_seqs[-1][it.id]
+        return _const_seq(it)
 
     def _table_rows(self, it: ast.AST, width: int) -> Optional[List[List[ast.AST]]]:
         if isinstance(it, ast.Name) and self.local_tables and it.id in self.local_tables[-1]:
@@ -723,7 +782,7 @@ class _Unroll(ast.NodeTransformer):
                             new = _NameToConst(nm, c).visit(new)
                         out.append(new)
                 return out
-        seq_ = _const_seq(node.iter)
+        seq_ = self._seq(node.iter)
         if seq_ is None or not isinstance(node.target, ast.Name) or node.orelse or _captured_by_closure(node.body, {node.target.id}):
             return node
         for n in ast.walk(ast.Module(body=list(node.body), type_ignores=[])):
@@ -755,7 +814,7 @@ class _Unroll(ast.NodeTransformer):
                         vals.append(self.visit(_NameToConst(vn, v_).visit(_NameToConst(kn, k_).visit(copy.deepcopy(node.value)))))
                     return ast.copy_location(ast.Dict(keys=keys, values=vals), node)
         if len(node.generators) == 1 and not node.generators[0].ifs and isinstance(node.generators[0].target, ast.Name):
-            seq_ = _const_seq(node.generators[0].iter)
+            seq_ = self._seq(node.generators[0].iter)
             if seq_ is not None and not _captured_by_closure([node.key, node.value], {node.generators[0].target.id}):
                 nm = node.generators[0].target.id
                 keys = [_NameToConst(nm, c).visit(copy.deepcopy(node.key)) for c in seq_]
@@ -766,7 +825,7 @@ class _Unroll(ast.NodeTransformer):
     def visit_ListComp(self, node: ast.ListComp):
         self.generic_visit(node)
         if len(node.generators) == 1 and not node.generators[0].ifs and isinstance(node.generators[0].target, ast.Name):
-            seq_ = _const_seq(node.generators[0].iter)
+            seq_ = self._seq(node.generators[0].iter)
             if seq_ is not None and not _captured_by_closure([node.elt], {node.generators[0].target.id}):
                 nm = node.generators[0].target.id
                 return ast.copy_location(ast.List(elts=[self.visit(_NameToConst(nm, c).visit(copy.deepcopy(node.elt))) for c in seq_], ctx=ast.Load()), node)
@@ -1183,8 +1242,14 @@ class Inliner:
         self._mro_cache: Dict[str, Dict[str, ast.FunctionDef]] = {}
 
     # -- eligibility -----------------------------------------------------------------------------------------------
+    # a function that performs one of these calls plays a role the rules look for by what it does, whatever it is called (the function
+    # that restores an instance on demand = the one that calls reconstruct_instance): it stays a unit, its callers keep the call
+    ROLE_CALLS = {"reconstruct_instance"}
+
     def _eligible(self, h: ast.FunctionDef) -> bool:
         if h.name in self.vocab or _has_yield(h) or h.args.kwarg:
+            return False
+        if any(isinstance(c, ast.Call) and isinstance(c.func, ast.Attribute) and c.func.attr in self.ROLE_CALLS for c in ast.walk(h)):
             return False
         for d in h.decorator_list:
             if not (isinstance(d, ast.Name) and d.id in ("staticmethod", "classmethod")):
